@@ -3,6 +3,8 @@ package otto
 import (
 	"fmt"
 	"regexp"
+	"regexp/syntax"
+	"unicode/utf8"
 
 	"github.com/robertkrimen/otto/parser"
 )
@@ -14,6 +16,12 @@ type regExpObject struct {
 	global            bool
 	ignoreCase        bool
 	multiline         bool
+
+	// resume is set for a global expression with an assertion that looks behind
+	// (^ \b \B): it is the expression as group 1 after a prefix that takes the
+	// character in front of lastIndex and then as little as possible, so that a
+	// search resumed inside the subject still sees what comes before it.
+	resume *regexp.Regexp
 }
 
 func (rt *runtime) newRegExpObject(pattern string, flags string) *object {
@@ -65,8 +73,17 @@ func (rt *runtime) newRegExpObject(pattern string, flags string) *object {
 		panic(rt.panicSyntaxError("Invalid regular expression: %s", err.Error()[22:]))
 	}
 
+	var resume *regexp.Regexp
+	if global && regExpLooksBehind(re2pattern) {
+		resume, err = regexp.Compile("^(?s:.)(?s:.*?)(" + re2pattern + ")")
+		if err != nil {
+			panic(rt.panicSyntaxError("Invalid regular expression: %s", err.Error()[22:]))
+		}
+	}
+
 	o.value = regExpObject{
 		regularExpression: regularExpression,
+		resume:            resume,
 		global:            global,
 		ignoreCase:        ignoreCase,
 		multiline:         multiline,
@@ -79,6 +96,29 @@ func (rt *runtime) newRegExpObject(pattern string, flags string) *object {
 	o.defineProperty("lastIndex", intValue(0), 0o100, false)
 	o.defineProperty("source", stringValue(pattern), 0, false)
 	return o
+}
+
+// regExpLooksBehind reports whether a (compilable) re2 pattern contains an
+// assertion whose outcome depends on the text in front of the position tested.
+func regExpLooksBehind(re2pattern string) bool {
+	re, err := syntax.Parse(re2pattern, syntax.Perl)
+	if err != nil {
+		return false
+	}
+	var looksBehind func(re *syntax.Regexp) bool
+	looksBehind = func(re *syntax.Regexp) bool {
+		switch re.Op {
+		case syntax.OpBeginLine, syntax.OpBeginText, syntax.OpWordBoundary, syntax.OpNoWordBoundary:
+			return true
+		}
+		for _, sub := range re.Sub {
+			if looksBehind(sub) {
+				return true
+			}
+		}
+		return false
+	}
+	return looksBehind(re)
 }
 
 func (o *object) regExpValue() regExpObject {
@@ -116,7 +156,20 @@ func execRegExp(this *object, target string) (bool, []int) {
 		if units != -1 {
 			index = int64(len(target))
 		}
-		result = this.regExpValue().regularExpression.FindStringSubmatchIndex(target[index:])
+		if rx := this.regExpValue(); index > 0 && rx.resume != nil {
+			// 15.10.6.2 step 9: the match starts at or after lastIndex, but in the whole subject.
+			_, size := utf8.DecodeLastRuneInString(target[:index])
+			if result = rx.resume.FindStringSubmatchIndex(target[index-int64(size):]); result != nil {
+				result = result[2:]
+				for i, offset := range result {
+					if offset != -1 {
+						result[i] -= size
+					}
+				}
+			}
+		} else {
+			result = rx.regularExpression.FindStringSubmatchIndex(target[index:])
+		}
 	}
 
 	if result == nil {
